@@ -65,7 +65,8 @@ Plan generate(const std::string& prop, int tier, uint64_t batchSeed, uint64_t id
     {
         // 2-4 thread workloads taken from the other generators (cut to a few operations: the library runs
         // unoptimised and instrumented here) + the scheduler configuration
-        static const int mixn[] = {1, 5, 13, 15, 16, 6, 4, 10, 18, 17, 7, 8};
+        static const int mixn[] = {1, 5, 13, 15, 16, 6, 4, 10, 18, 17, 7, 8, 2, 3, 9};
+        static const size_t nMix = sizeof mixn / sizeof mixn[0];
         Rng r(runSeed(batchSeed, prop, idx), "c19");
         Plan p;
         p.prop = prop;
@@ -79,13 +80,15 @@ Plan generate(const std::string& prop, int tier, uint64_t batchSeed, uint64_t id
         cfg.set("horizon", r.pick<int64_t>({2000, 20000, 100000, 400000}));
         p.items.push_back(cfg);
         const bool sameWorkload = r.chance(1, 2);  // identical workloads on all threads: every access (also on rare paths) has a twin
+        if (r.chance(1, 2))
+            p.items.front().set("shareinput", 1);  // equal receive buffers are ONE storage for all threads (sched.h, internInput)
         if (sameWorkload && r.chance(1, 3))
             p.items.front().set("clone", static_cast<int64_t>(1 + r.below(4))).set("clonedeliv", static_cast<int64_t>(r.below(4)));  // cloned start (threads.cpp): the threads continue on copies of one object
-        const int shared = mixn[r.below(12)];
+        const int shared = mixn[r.below(nMix)];
         const uint64_t sharedIdx = r.next() % 1000000;
         for (int t = 0; t < n; ++t)
         {
-            const int pn = sameWorkload ? shared : mixn[r.below(12)];
+            const int pn = sameWorkload ? shared : mixn[r.below(nMix)];
             char name[8];
             snprintf(name, sizeof name, "C%02d", pn);
             Plan sub = generate(name, 0, batchSeed ^ 0xC19, sameWorkload ? sharedIdx : r.next() % 1000000);
@@ -432,7 +435,7 @@ Plan genCodec(const std::string& prop, int tier, uint64_t batchSeed, uint64_t id
         op.set("min", minB).set("max", maxB);
         op.set("ver", r.chance(1, 2) ? 1 : (r.chance(1, 4) ? r.pick<int64_t>({0x7F, 0x80, 0xFE, 0xFF}) : r.range(1, 255)));
         op.set("mode", static_cast<int64_t>(r.below(4)));
-        if (c10 && !wrapRun && !manyFrames && !swarmOfTiny && msgs.size() >= 1 && r.chance(1, 6))
+        if ((c10 ? r.chance(1, 6) : ((c01 || c07 || c08) && r.chance(1, 12))) && !wrapRun && !manyFrames && !swarmOfTiny && msgs.size() >= 1)
         {
             // the same packets first go into a call that is aborted half way (other frame size), then into the real one
             op.set("abort", static_cast<int64_t>(r.below(msgs.size()))).set("abwhere", static_cast<int64_t>(r.below(3)));
